@@ -798,6 +798,7 @@ func parentMain(e *Engine, tier string, seed uint64, workers, runsOverride, secs
 
 	sort.Slice(finds, func(i, j int) bool { return finds[i].msg.Index < finds[j].msg.Index })
 	reported := map[string]bool{}
+	var pending []found
 	for _, f := range finds {
 		if f.crashed {
 			// a worker died: harness trouble unless the re-run shows a Go
@@ -846,34 +847,77 @@ func parentMain(e *Engine, tier string, seed uint64, workers, runsOverride, secs
 			continue
 		}
 		reported[key] = true
-		rf := &ReplayFile{Property: e.ID, Seed: seed, Tier: tier, Index: f.msg.Index, Plan: f.msg.Plan, Sched: f.msg.Sched,
-			Violation: *f.msg.Finding, Outcome: f.msg.Outcome, Label: f.msg.Label}
-		path := filepath.Join(replayDir, fmt.Sprintf("%s-seed%d-idx%d.json", e.ID, seed, f.msg.Index))
-		writeJSON(path, rf)
-		// shrink in a fresh process, then confirm the replay in another
-		sh := exec.Command(self, "-shrink", path)
-		sh.Stderr = os.Stderr
-		shDone := make(chan error, 1)
-		go func() { shDone <- sh.Run() }()
-		select {
-		case <-shDone:
-		case <-time.After(5 * time.Minute):
-			sh.Process.Kill()
-			<-shDone
-			writeJSON(path, rf) // keep the unshrunk file
+		pending = append(pending, f)
+	}
+	// Shrink and confirm the distinct violations, several at a time.  Only the
+	// first few are minimised (a badly broken tree can produce dozens of
+	// distinct keys); every one is confirmed by a replay in a fresh process.
+	const maxShrunk = 6
+	type vout struct {
+		text    string
+		trouble bool
+	}
+	outs := make([]vout, len(pending))
+	// one replay file per violation: a run may violate several oracles
+	paths := make([]string, len(pending))
+	perIndex := map[int]int{}
+	for i, f := range pending {
+		suffix := ""
+		if n := perIndex[f.msg.Index]; n > 0 {
+			suffix = fmt.Sprintf("-v%d", n+1)
 		}
-		rp := exec.Command(self, "-replay", path)
-		out, _ := rp.CombinedOutput()
-		if !strings.Contains(string(out), "VIOLATION property="+e.ID) {
-			fmt.Fprintf(os.Stderr, "replay of %s in a fresh process did not reproduce %s — harness determinism problem\n%s\n", path, key, tail(string(out), 3000))
+		perIndex[f.msg.Index]++
+		paths[i] = filepath.Join(replayDir, fmt.Sprintf("%s-seed%d-idx%d%s.json", e.ID, seed, f.msg.Index, suffix))
+	}
+	sem := make(chan struct{}, workers)
+	var vwg sync.WaitGroup
+	for i, f := range pending {
+		vwg.Add(1)
+		go func(i int, f found) {
+			defer vwg.Done()
+			sem <- struct{}{}
+			defer func() { <-sem }()
+			key := f.msg.Finding.Key
+			rf := &ReplayFile{Property: e.ID, Seed: seed, Tier: tier, Index: f.msg.Index, Plan: f.msg.Plan, Sched: f.msg.Sched,
+				Violation: *f.msg.Finding, Outcome: f.msg.Outcome, Label: f.msg.Label}
+			path := paths[i]
+			writeJSON(path, rf)
+			if i < maxShrunk {
+				// shrink in a fresh process, then confirm the replay in another
+				sh := exec.Command(self, "-shrink", path)
+				sh.Stderr = os.Stderr
+				shDone := make(chan error, 1)
+				go func() { shDone <- sh.Run() }()
+				select {
+				case <-shDone:
+				case <-time.After(3 * time.Minute):
+					sh.Process.Kill()
+					<-shDone
+					writeJSON(path, rf) // keep the unshrunk file
+				}
+			}
+			rp := exec.Command(self, "-replay", path)
+			out, _ := rp.CombinedOutput()
+			if !strings.Contains(string(out), "VIOLATION property="+e.ID) {
+				outs[i] = vout{trouble: true, text: fmt.Sprintf("replay of %s in a fresh process did not reproduce %s — harness determinism problem\n%s\n", path, key, tail(string(out), 3000))}
+				return
+			}
+			b, _ := os.ReadFile(path)
+			var rf2 ReplayFile
+			json.Unmarshal(b, &rf2)
+			outs[i].text = fmt.Sprintf("violation: %s\n  index=%d label=%s plan_tape=%d sched_tape=%d choices (minimised=%v)\nVIOLATION property=%s replay=%s\n",
+				rf2.Violation, rf2.Index, rf2.Label, len(rf2.Plan), len(rf2.Sched), rf2.Minimised, e.ID, path)
+		}(i, f)
+	}
+	vwg.Wait()
+	for _, o := range outs {
+		if o.trouble {
+			fmt.Fprint(os.Stderr, o.text)
 			return 2
 		}
-		b, _ := os.ReadFile(path)
-		var rf2 ReplayFile
-		json.Unmarshal(b, &rf2)
-		fmt.Printf("violation: %s\n", rf2.Violation)
-		fmt.Printf("  index=%d label=%s plan_tape=%d sched_tape=%d choices (minimised=%v)\n", rf2.Index, rf2.Label, len(rf2.Plan), len(rf2.Sched), rf2.Minimised)
-		fmt.Printf("VIOLATION property=%s replay=%s\n", e.ID, path)
+	}
+	for _, o := range outs {
+		fmt.Print(o.text)
 		violations++
 		exit = 1
 	}
